@@ -10,4 +10,21 @@ PROPS = {
         trusted=["crate bitvec / core as compiled"],
         assumptions=["NOR program = bitwise AND; a torn program clears any subset of the bits to clear"],
     ),
+    "C15": dict(
+        modules=["Fuota.Props.C15"],
+        suites=[dict(name="d5g", cfg="matrix"),
+                dict(name="d5s", cfg="matrix", keys=["res", "maxl", "fw", "par"])],
+        rule="d5g: one start_update call per (fragment size, count, slot size) boundary class or near-fit geometry; "
+             "d5s: whole sessions with loss sets at, below and above the parity capacity; distinct = distinct query text",
+        trusted=["crate bitvec / core as compiled"],
+        assumptions=["u32 arguments (the API type)"],
+    ),
+    "C18": dict(
+        modules=["Fuota.Props.C18", "Fuota.Props.C03a"],
+        suites=[dict(name="d1f", cfg="matrix")],
+        rule="one scenario per (session, storage-call index): the call fails once without effect, the same block is "
+             "redelivered, the session is continued; the reconstructor runs on instrumented in-memory stores",
+        trusted=["crate bitvec / core as compiled"],
+        assumptions=["a failed storage operation has no effect on the medium"],
+    ),
 }
